@@ -12,7 +12,7 @@ from ..facts import callee
 
 TABLE = [
     # (property ids, function path prefix, kind, text, defect, why)
-    (("C01",), "jxl_render::vardct::adaptive_lf_smoothing", "compare", "ret:width != arg1.width", "D23",
+    (("C01",), "jxl_render::vardct::adaptive_lf_smoothing", "compare", "ret:width != arg1.width | ret:width != width | ret:height != height", "D23",
      "LF planes of different sizes (chroma subsampling) are not smoothed: the smoothing kernel asserts equal plane lengths"),
     (("C01",), "<jxl_vardct::hf_metadata::HfMetadata as jxl_oxide_common::Bundle<", "reject", "dw > 1", "D24",
      "varblocks wider than 8 in a chroma-subsampled frame stick out of the smaller chroma grid"),
@@ -54,6 +54,15 @@ TABLE = [
 ]
 
 
+def flip_text(t):
+    """`a < b` as `b > a` (None for a comparison with a constant, which norm() already orients)"""
+    parts = t.rsplit(" ", 2)
+    if len(parts) != 3 or parts[2].lstrip("-").isdigit():
+        return None
+    fl = {"<": ">", ">": "<", "<=": ">=", ">=": "<=", "==": "==", "!=": "!="}
+    return "%s %s %s" % (parts[2], fl[parts[1]], parts[0])
+
+
 _DEEP = None
 
 
@@ -72,11 +81,26 @@ def deep_forms(key):
 
 
 def family(prog, prefix):
+    """the function, its closures, and the same-crate functions they call directly (a guard moved into a private helper is still the
+    guard)"""
     cn = prefix.lstrip("<").split("::")[0]
     cr = prog.crates.get(cn)
     if cr is None:
         return []
-    return [f for f in cr.fn_list if f.kind != "Promoted" and f.path.startswith(prefix)]
+    fam = [f for f in cr.fn_list if f.kind != "Promoted" and f.path.startswith(prefix)]
+    seen = {f.path for f in fam}
+    for f in list(fam):
+        for _, t in f.calls():
+            c = callee(t)
+            g = (cr.fns.get(c.get("res") or c["fn"]) or cr.fns.get(c["fn"])) if c else None
+            if g is not None and g.path not in seen and g.kind != "Promoted" and len(g.blocks) < 120:
+                seen.add(g.path)
+                fam.append(g)
+                for h in cr.fn_list:
+                    if h.path.startswith(g.path + "::{closure") and h.path not in seen:
+                        seen.add(h.path)
+                        fam.append(h)
+    return fam
 
 
 def run(ctx, pid):
@@ -182,10 +206,13 @@ def run(ctx, pid):
                     cache[(f.path, kind)] = {callee(t)["fn"] for _, t in f.calls() if callee(t)} | \
                                             {callee(t).get("res", "") for _, t in f.calls() if callee(t)}
             have = cache[(f.path, kind)]
+            alts = [x.strip() for x in text.split(" | ")]
             if kind == "calls":
-                if any(x.endswith(text) or (text in x) for x in have):
+                if any(x.endswith(a) or (a in x) for x in have for a in alts):
                     found = True
-            elif text in have:
+            elif any(a in have for a in alts):
+                found = True
+            elif kind in ("compare", "reject") and any(flip_text(a) in have for a in alts):
                 found = True
             elif kind in ("compare", "reject") and deep_forms(key):
                 dk = (f.path, kind + "-deep")
@@ -197,9 +224,13 @@ def run(ctx, pid):
             elif kind == "compare":
                 # the negated form is the same decision
                 neg = {"<": ">=", ">=": "<", ">": "<=", "<=": ">", "==": "!=", "!=": "=="}
-                parts = text.rsplit(" ", 2)
-                if len(parts) == 3 and validation.norm(parts[0], neg[parts[1]], int(parts[2]) if parts[2].lstrip("-").isdigit() else parts[2]) in have:
-                    found = True
+                for a in alts:
+                    parts = a.rsplit(" ", 2)
+                    if len(parts) != 3:
+                        continue
+                    n_ = validation.norm(parts[0], neg[parts[1]], int(parts[2]) if parts[2].lstrip("-").isdigit() else parts[2])
+                    if n_ in have or (flip_text(n_) in have):
+                        found = True
             if found:
                 ctx.seen(f)
                 break
